@@ -54,6 +54,8 @@ struct to_number_result { const char* ptr; int ec; };
 static const char* vx_s; static size_t vx_k_unused;
 static spec_u128 vx_h; static size_t vx_h_i;
 /*@COPY dec_contract_decl@*/
+/*@COPY dec_i64_contract_decl@*/
+#define VX_DEC_TO_INTEGER(s, n, p) _Generic((p), uint64_t*: dec_to_integer_u64, int64_t*: dec_to_integer_i64)((s), (n), (p))
 
 /*@FUNC escape@*/
 /*@FUNC escape_string@*/
